@@ -20,6 +20,8 @@ CLAUSES = {
     "extglob_negation_not_complement": "!(...) is encoded as (?:(?!alts).*|(?>alts).+?|) which is not the complement of the alternatives",
     "nocasematch_folds_named_class": "with nocasematch a named class such as [[:upper:]] is case-folded by the regex engine; bash does not fold classes",
     "named_class_ascii_only": "named classes such as [[:alpha:]] are ASCII-only in the regex crate; bash in a UTF-8 locale classifies multi-byte characters too",
+    "quoted_pattern_operator_not_escaped": "a quoted ! ^ - @ or : is joined into the pattern text without a backslash (regex_char_is_special does not list them) and keeps its pattern meaning: [\"!\"a] negates, [a\"-\"c] is a range, \"@\"$group is an extglob, [[\":\"alpha:]] a class",
+    "glob_piecewise_literal_shortcut": "Pattern::expand asks requires_expansion of each piece separately; a construct cut by a quoting boundary ([a\"b\"], [\\!a]) has no piece that is a complete glob, so the word is not expanded at all",
     "regex_engine_repeated_plus_group": "the regex engine answers (X)+ Y (X)+ (from +(X)…+(X): same X twice, Y able to match the empty string, e.g. * or ?(a)) as if one occurrence of X sufficed",
 }
 
@@ -533,6 +535,352 @@ def judge_glob(ctx, cfg, where, p, b, o, m, st):
         ctx.violation("pathname expansion differs from bash", case)
 
 
+
+# ----------------------------------------------------------------------------------------------
+# piece-split patterns: every construct with part of its text quoted / from a variable, cut at every
+# position, through every consumer of patterns
+
+P_CONSTRUCTS = ["[ab]", "[!ab]", "[^ab]", "[a-c]", "[!a-c]", "[[:alpha:]]", "[![:digit:]b]", "[]a]", "[a!]", "[ab]c", "a[bc]",
+                "@(a|b)", "?(ab)", "*(a|b)", "+(ab)", "!(a|b)", "@(a|[bc])", "a@(b|c)", "@(a|b)c",
+                "a?c", "a*c", "?b", "*b", "a?", "ab", "a-c", "@", "!a"]
+P_VARONLY = ["a\\*c", "[a\\]b]", "\\[ab]", "a\\?", "[\\!a]", "@(a|b)", "!(a)", "(a|b)", "a|b", "+(a)", "[", "]", "*", "?"]   # delivered whole from a variable
+P_LITWHOLE = ["@(a|b)", "!(a)", "+(a|b)", "?(a)", "*(a)", "(a|b)", "a|b", "[ab]", "[!a]", "*", "?", "a*", "\\a", "a\\", "[", "]", "!", "@", "+", "-", "^"]
+P_SUBJ = ["", "a", "b", "c", "ab", "ba", "ac", "abc", "bc", "aab", "!", "-", "^", ":", "]", "[", "@", "+", "(", "|", "a-c", "*", "?", "\\", "\\a", "a\\"]
+P_NAMES = ["a", "b", "c", "ab", "ac", "abc", "bc", "!", "-", "^", "@", "A", "a-c", "@(a|b)", "[ab]", "!a", "*", ".a"]
+P_QOPS = "!^-@:"      # pattern-significant characters that `regex_char_is_special` does not list
+P_MIDMODES = ["dq", "sq", "bs", "dqv", "dqvb", "v", "vb"]
+
+
+def shell_unsafe_inline(t):
+    return any(ch in t for ch in "()| \n;&<>$`'\"\\#~{}")
+
+
+def piece_src(kind, text, how, var):
+    """source text of one piece and the variable assignment it needs"""
+    if text == "":
+        return "", None
+    if how == "inline":
+        return text, None
+    if how == "dq":
+        return '"' + text.replace("\\", "\\\\").replace('"', '\\"').replace("$", "\\$").replace("`", "\\`") + '"', None
+    if how == "sq":
+        return sq(text), None
+    if how == "bs":
+        return "".join("\\" + ch for ch in text), None
+    if how == "dqv":
+        return '"$%s"' % var, (var, text)
+    if how == "dqvb":
+        return '"${%s}"' % var, (var, text)
+    if how == "v":
+        return "$" + var, (var, text)
+    if how == "vb":
+        return "${%s}" % var, (var, text)
+    raise ValueError(how)
+
+
+class PCase:
+    """pieces: list of (kind 'l'|'p', text, how)"""
+    def __init__(self, pieces, origin):
+        self.pieces = [(k, t, h) for (k, t, h) in pieces if t != ""]
+        self.origin = origin
+        src, assigns = "", []
+        for i, (k, t, h) in enumerate(self.pieces):
+            if h == "v" and i + 1 < len(self.pieces):
+                nk, nt, nh = self.pieces[i + 1]
+                if nh == "inline" and (nt[0].isalnum() or nt[0] == "_"):
+                    h = "vb"       # `$v0ab` would name another variable
+            x, a = piece_src(k, t, h, "v%d" % i)
+            src += x
+            if a:
+                assigns.append(a)
+        self.src, self.assigns = src, assigns
+
+    def wire(self, preserve_bs=False):
+        """pieces as brush forms them. `\\c` written unquoted in the script is a quoted (literal) piece `c`
+        where backslashes are stripped (${v#p}, pathname expansion) but stays pattern text `\\c` where
+        basic_expand_pattern preserves them (case labels, [[ ]])"""
+        out = []
+        for k, t, h in self.pieces:
+            if h == "bs" and preserve_bs:
+                out.append("p:" + esc("".join("\\" + ch for ch in t)))
+            else:
+                out.append("%s:%s" % (k, esc(t)))
+        return " ".join(out)
+
+    def needs_ext_parse(self):
+        """unquoted parentheses written in the script text: the label only parses with extglob on"""
+        return any(h == "inline" and any(ch in t for ch in "()|") for _, t, h in self.pieces)
+
+    def qops(self):
+        return any(k == "l" and any(ch in t for ch in P_QOPS) for k, t, _ in self.pieces)
+
+    def has_bang(self):
+        return "!(" in "".join(t for k, t, _ in self.pieces if k == "p")
+
+    def has_class(self):
+        return "[:" in "".join(t for _, t, _ in self.pieces)
+
+    def as_json(self):
+        return {"source": self.src, "vars": dict(self.assigns), "pieces": [[k, t] for k, t, _ in self.pieces], "origin": self.origin}
+
+
+def cut_cases(T, midmodes, sidemodes):
+    out = []
+    n = len(T)
+    is_ext = len(T) > 2 and T[0] in "@?*+!" and T[1] == "("
+    has_paren = any(ch in T for ch in "()|")
+    for i in range(n):
+        for j in range(i + 1, n + 1):
+            L, M, R = T[:i], T[i:j], T[j:]
+            for mm in midmodes:
+                kind = "p" if mm in ("v", "vb") else "l"
+                if mm == "bs" and "\n" in M:
+                    continue
+                for sm in sidemodes:
+                    if sm == "inline":
+                        if has_paren and not (is_ext and i >= 2 and j <= T.rindex(")") and "(" not in M and ")" not in M):
+                            continue
+                        if shell_unsafe_inline(L.replace("(", "").replace("|", "").replace(")", "")) or shell_unsafe_inline(R.replace("(", "").replace("|", "").replace(")", "")):
+                            continue
+                    out.append(PCase([("p", L, sm), (kind, M, mm), ("p", R, sm)], "%s cut %d:%d mid=%s sides=%s" % (T, i, j, mm, sm)))
+    return out
+
+
+def piece_family(ctx):
+    core, extra = [], []
+    for T in P_CONSTRUCTS:
+        core += cut_cases(T, ["dq", "v"], ["inline"])
+        core += cut_cases(T, ["dqv"], ["v"])
+        extra += cut_cases(T, ["sq", "bs", "dqvb", "vb"], ["inline", "v"])
+        extra += cut_cases(T, ["dq", "v"], ["v", "vb"])
+    for T in P_VARONLY:
+        core.append(PCase([("p", T, "v")], "whole pattern from a variable"))
+        core.append(PCase([("p", "a", "inline"), ("p", T, "vb")], "pattern from a variable after a"))
+    for T in P_LITWHOLE:
+        for how in ("dq", "sq", "dqv"):
+            if not (how == "dq" and "\\" in T):
+                core.append(PCase([("l", T, how)], "whole quoted"))
+        core.append(PCase([("l", T, "dqv"), ("p", "*", "inline")], "quoted then *"))
+        core.append(PCase([("p", "?", "inline"), ("l", T, "sq")], "? then quoted"))
+    # a quoted extglob opener in front of a group from a variable, quoted bracket operators
+    for pre in "@!+?*":
+        core.append(PCase([("l", pre, "dq"), ("p", "(a|b)", "v")], "quoted opener + group"))
+    seen, res = set(), []
+    rng = ctx.rng
+    k = ctx.size(700, 100000)
+    pick = extra if len(extra) <= k else rng.sample(extra, k)
+    for c in core + pick:
+        key = (c.src, tuple(c.assigns))
+        if key not in seen and c.pieces:
+            seen.add(key)
+            res.append(c)
+    return res
+
+
+P_CONSUMERS = ["case", "[[ == ]]", "[[ != ]]", "${v##p}", "${v%%p}", "${v/p/r}"]
+
+
+def pcase_script(c, subs):
+    S = " ".join(sq(x) for x in subs)
+    P = c.src
+    a = "".join("%s=%s\n" % (v, sq(t)) for v, t in c.assigns)
+    return (a +
+            "for s in %s; do q=E; case $s in %s) q=1;; *) q=0;; esac; printf %%s $q; done; printf ' '\n" % (S, P) +
+            "for s in %s; do [[ $s == %s ]]; case $? in 0) q=1;; 1) q=0;; *) q=E;; esac; printf %%s $q; done; printf ' '\n" % (S, P) +
+            "for s in %s; do [[ $s != %s ]]; case $? in 0) q=0;; 1) q=1;; *) q=E;; esac; printf %%s $q; done; printf ' '\n" % (S, P) +
+            "for s in %s; do q=E; x=${s##%s} && { if [ -z \"$x\" ]; then q=1; else q=0; fi; }; [ -z \"$s\" ] && q=-; printf %%s $q; done; printf ' '\n" % (S, P) +
+            "for s in %s; do q=E; x=${s%%%%%s} && { if [ -z \"$x\" ]; then q=1; else q=0; fi; }; [ -z \"$s\" ] && q=-; printf %%s $q; done; printf ' '\n" % (S, P) +
+            "for s in %s; do q=E; x=${s/%s/%%} && { if [ \"$x\" = %% ]; then q=1; else q=0; fi; }; [ -z \"$s\" ] && q=-; printf %%s $q; done; printf ' '\n" % (S, P) +
+            "set -- %s; printf '<%%s>' \"$@\"; echo\n" % P)
+
+
+def stage_P(ctx):
+    fam = piece_family(ctx)
+    d = tempfile.mkdtemp(prefix="c08-pieces-")
+    st = {"nv": 0, "fixed": 0, "om": 0}
+    try:
+        flat = os.path.join(d, "flat")
+        os.mkdir(flat)
+        for nme in P_NAMES:
+            open(os.path.join(flat, nme), "w").close()
+        cdir = os.path.join(d, "cases")
+        os.mkdir(cdir)
+        cfgs = [(1, 0), (0, 0), (1, 1)] if ctx.quick else [(1, 0), (0, 0), (1, 1), (0, 1)]
+        for (ext, nc) in cfgs:
+            subs = P_SUBJ + (["A", "AB"] if nc else [])
+            cases = [c for c in fam if ext or not c.needs_ext_parse()]
+            if nc:
+                cases = cases[::3]
+            for i, c in enumerate(cases):
+                with open(os.path.join(cdir, "%d_%d_%d.sh" % (ext, nc, i)), "w") as f:
+                    f.write(pcase_script(c, subs))
+            header = "cd %s || exit 9\nshopt -%s extglob; shopt -%s nocasematch; IFS=\n" % (sq(flat), "s" if ext else "u", "s" if nc else "u")
+
+            def run(which):
+                def one(chunk):
+                    script = header + "".join("printf '#%d#'; . %s\n" % (i, sq(os.path.join(cdir, "%d_%d_%d.sh" % (ext, nc, i)))) for i in chunk)
+                    r = lib.run_shell(which, script, mode="file", timeout=1800)
+                    parts = re.split(r"#(\d+)#", r["out"])
+                    return {int(k): v for k, v in zip(parts[1::2], parts[2::2])}
+                res = {}
+                for dd in lib.pmap(one, lib.chunked(list(range(len(cases))), lib.NCPU)):
+                    res.update(dd)
+                return res
+            bo, oo = run("brush"), run("bash")
+            W = [c.wire() for c in cases]
+            WB = [c.wire(True) for c in cases]
+            S = " ".join(esc(x) for x in subs)
+            m_case = lib.run_drv_parallel(["C08 P %d %d %s -- %s" % (ext, nc, w, S) for w in WB])
+            m_cond = m_case if ext else lib.run_drv_parallel(["C08 P 1 %d %s -- %s" % (nc, w, S) for w in WB])
+            m_par = lib.run_drv_parallel(["C08 P %d 0 %s -- %s" % (ext, w, S) for w in W])
+            m_rep = m_par if not nc else lib.run_drv_parallel(["C08 P %d %d %s -- %s" % (ext, nc, w, S) for w in W])
+            m_glob = lib.run_drv_parallel(["C08 PG %d 0 0 %s -- %s" % (ext, w, " ".join(esc(x) for x in P_NAMES)) for w in W])
+            for i, c in enumerate(cases):
+                ctx.distinct.add(hash(("p", ext, nc, c.src, tuple(c.assigns))))
+                ctx.bucket("pieces_ext%d_nocase%d" % (ext, nc))
+                b, o = bo.get(i), oo.get(i)
+                base = dict(c.as_json(), extglob=ext, nocasematch=nc)
+                if o is None or len(o.split(" ")) < 7 or not o.endswith("\n"):
+                    ctx.bucket("pieces_bash_rejects_source")
+                    continue
+                if b is None:
+                    b = ""
+                bf, of = b.rstrip("\n").split(" ", 6), o.rstrip("\n").split(" ", 6)
+                if len(bf) != 7:
+                    bf = (bf + ["E" * len(subs)] * 7)[:6] + ["<brush-gave-up>"]
+                reps = {"case": (m_case[i], nc), "[[ == ]]": (m_cond[i], nc), "[[ != ]]": (m_cond[i], nc),
+                        "${v##p}": (m_par[i], 0), "${v%%p}": (m_par[i], 0),
+                        "${v/p/r}": (m_rep[i], nc)}     # nocasematch applies to ${v/p/r} (bash and brush), not to # and %
+                for k, where in enumerate(P_CONSUMERS):
+                    mf = reps[where][0].split(" ")
+                    if len(mf) != 3:
+                        ctx.violation("driver gave no piece report", dict(base, model=reps[where][0]), kind="correspondence")
+                        break
+                    impl, spec = mf[0], (None if mf[1] == "-" else mf[1])
+                    bx, ox = bf[k], of[k]
+                    if len(ox) != len(subs):
+                        continue
+                    if len(bx) != len(subs):
+                        bx = "E" * len(subs)
+                    for j, sj in enumerate(subs):
+                        if ox[j] == "-":
+                            continue
+                        ctx.evals += 1
+                        judge_piece(ctx, st, dict(base, consumer=where, subject=sj, joined=unesc(mf[2])), c, reps[where][1],
+                                    bx[j], ox[j], impl[j], None if spec is None else spec[j])
+                # pathname expansion
+                ctx.evals += 1
+                judge_piece_glob(ctx, st, dict(base, consumer="pathname expansion", names=P_NAMES), c, bf[6], of[6], m_glob[i])
+        if fam:
+            ctx.sample({"piece_split": fam[len(fam) // 2].as_json()})
+        if st["fixed"]:
+            ctx.notes.append("piece family: %d answers where brush agrees with bash and the model still mirrors a defect" % st["fixed"])
+    finally:
+        shutil.rmtree(d, ignore_errors=True)
+
+
+def judge_piece(ctx, st, case, c, nc, b, o, m, sp):
+    case = dict(case, brush=b, bash=o, model=m, spec=sp)
+    if sp is None:
+        ctx.bucket("pieces_no_oracle")
+        truth = None
+    elif sp != o:
+        ctx.oracle_mismatch += 1
+        truth = None
+    else:
+        truth = o
+    feature = c.qops() or c.has_bang() or (nc and c.has_class())
+    if b != m:
+        if truth is not None and b == truth and feature:
+            st["fixed"] += 1
+            return
+        if case["consumer"] == "${v/p/r}" and "!(" in case["joined"] and case["extglob"]:
+            # the replacement searches unanchored, and the !(...) encoding does not give the longest match there
+            ctx.known_or_violation("extglob_negation_not_complement", "piece-split pattern in ${v/p/r}: " + CLAUSES["extglob_negation_not_complement"], case)
+            return
+        if repeated_plus_group(brush_regex(1, case["joined"])):
+            ctx.known_or_violation("regex_engine_repeated_plus_group", "piece-split pattern: " + CLAUSES["regex_engine_repeated_plus_group"], case)
+            return
+        if st["nv"] < 12:
+            st["nv"] += 1
+            ctx.violation("piece-split pattern: brush and the model of its pattern code disagree (%s)" % case["consumer"] +
+                          ("; brush also differs from bash" if o != b else ""), case,
+                          kind="property" if (truth is not None and b != truth) or (truth is None and b != o) else "correspondence")
+        return
+    if truth is None or b == truth:
+        return
+    if c.qops():
+        cl = "quoted_pattern_operator_not_escaped"
+    elif c.has_bang():
+        cl = "extglob_negation_not_complement"
+    elif nc and c.has_class():
+        cl = "nocasematch_folds_named_class"
+    else:
+        cl = None
+    if cl:
+        ctx.known_or_violation(cl, "piece-split pattern, %s: brush answers %s, bash answers %s: %s" % (case["consumer"], b, o, CLAUSES[cl]), case)
+    elif st["nv"] < 12:
+        st["nv"] += 1
+        ctx.violation("piece-split pattern, %s: brush answers %s, bash answers %s" % (case["consumer"], b, o), case)
+
+
+def canon_glob(out):
+    words = re.findall(r"<([^<>]*)>", out)
+    if len(words) == 1 and words[0] not in P_NAMES:
+        return "NOMATCH"
+    return ",".join(words) if words else "NOMATCH"
+
+
+def judge_piece_glob(ctx, st, case, c, b, o, m):
+    bb, oo = canon_glob(b), canon_glob(o)
+    mf = m.split(" ")
+    if len(mf) != 2:
+        ctx.violation("driver gave no piece report", dict(case, model=m), kind="correspondence")
+        return
+
+    def dec(x):
+        if x in ("NOEXP", "?"):
+            return x
+        return "NOMATCH" if x == "NONE" else ",".join(unesc(y) for y in x.split(","))
+    impl, spec = dec(mf[0]), dec(mf[1])
+    case = dict(case, brush=bb, bash=oo, model=impl, spec=spec)
+    # a word that is kept as it is still names a file when it equals one
+    word = "".join(t for _, t, _ in c.pieces)
+    lit = word if word in P_NAMES else "NOMATCH"
+    impl_c = lit if impl == "NOEXP" else impl
+    if spec == "?":
+        truth = None
+    elif spec != oo:
+        ctx.oracle_mismatch += 1
+        truth = None
+    else:
+        truth = oo
+    if bb != impl_c:
+        if truth is not None and bb == truth and (c.qops() or c.has_bang() or impl == "NOEXP"):
+            st["fixed"] += 1
+            return
+        if st["nv"] < 12:
+            st["nv"] += 1
+            ctx.violation("piece-split pattern: pathname expansion in brush differs from the model of Pattern::expand" + ("; and from bash" if bb != oo else ""),
+                          case, kind="property" if bb != oo else "correspondence")
+        return
+    if truth is None or bb == truth:
+        return
+    if impl == "NOEXP":
+        cl = "glob_piecewise_literal_shortcut"
+    elif c.qops():
+        cl = "quoted_pattern_operator_not_escaped"
+    elif c.has_bang():
+        cl = "extglob_negation_not_complement"
+    else:
+        cl = None
+    if cl:
+        ctx.known_or_violation(cl, "piece-split pattern, pathname expansion: brush gives %s, bash gives %s: %s" % (bb, oo, CLAUSES[cl]), case)
+    elif st["nv"] < 12:
+        st["nv"] += 1
+        ctx.violation("piece-split pattern: pathname expansion differs from bash", case)
+
+
 # ----------------------------------------------------------------------------------------------
 
 def run(ctx):
@@ -548,13 +896,18 @@ def run(ctx):
     stage_E(ctx)
     stage_Q(ctx)
     stage_G(ctx)
+    stage_P(ctx)
     ctx.cov["rule"] = ("T: every pattern text over %d characters up to length 4/5 (+random to 12 fragments over a wide alphabet) x extglob on/off, regex text "
                        "string-equal; M: in-process exactly_matches vs the Lean regex semantics on every subject over {a,b,newline,]} up to length 3/4; "
                        "E/Q: case, [[ == ]], ${v##p} and inline quoted patterns in the brush binary vs bash 5.2 vs model vs spec; "
-                       "G: pathname expansion in real directories x extglob/dotglob/nullglob. non-trivial = distinct (config, pattern)" % len(PA))
+                       "G: pathname expansion in real directories x extglob/dotglob/nullglob; P: piece-split patterns - every construct (bracket expressions, "
+                       "each extglob operator, ?/* next to text, whole quoted/variable-borne patterns) cut at every position with the middle quoted (\"..\", '..', \\c, \"$v\") or from "
+                       "a variable ($v, ${v}) - through case, [[ == ]], [[ != ]], ${v##p}, ${v%%%%p}, ${v/p/r} and pathname expansion, brush vs bash vs piece model vs spec. "
+                       "non-trivial = distinct (config, pattern)" % len(PA))
     ctx.assumptions += ["fancy_regex/regex crates implement the modelled regex subset as Re.run does (sampled by tie M on every run)",
                         "add_missing_escape_chars_to_regex is the identity on emitted text (every [ inside a bracket is already escaped by pattern.rs)",
                         "patterns whose meaning POSIX leaves open (unterminated [, [. [= unknown [:x:], dangling backslash, unbalanced extglob parentheses) are compared model-vs-brush only, not against bash",
+                        "for ${v/p/r} only the answer 'the whole value was replaced' is compared (a whole-string match); where the replacement lands otherwise is C06's subject",
                         "locale C.UTF-8; non-ASCII case folding and named classes on non-ASCII characters are not modelled"]
 
 
@@ -562,6 +915,39 @@ def replay(ctx, rp):
     lib.cargo_build([BIN])
     case = rp["case"]
     print(json.dumps(case, indent=1, ensure_ascii=False))
+    if "pieces" in case and "source" in case:
+        P = case["source"]
+        pre = "shopt -%s extglob; shopt -%s nocasematch; IFS=\n" % ("s" if case.get("extglob") else "u", "s" if case.get("nocasematch") else "u")
+        pre += "".join("%s=%s\n" % (v, sq(t)) for v, t in case.get("vars", {}).items())
+        cons, s0 = case.get("consumer", "case"), case.get("subject", "")
+        d = None
+        if cons == "pathname expansion":
+            d = tempfile.mkdtemp(prefix="c08-replay-")
+            for nme in case.get("names", P_NAMES):
+                open(os.path.join(d, nme), "w").close()
+            body = "cd %s\nset -- %s; printf '<%%s>' \"$@\"; echo" % (sq(d), P)
+        elif cons == "case":
+            body = "case %s in %s) echo 1;; *) echo 0;; esac" % (sq(s0), P)
+        elif cons == "[[ == ]]":
+            body = "[[ %s == %s ]]; echo $?" % (sq(s0), P)
+        elif cons == "[[ != ]]":
+            body = "[[ %s != %s ]]; echo $?" % (sq(s0), P)
+        elif cons == "${v##p}":
+            body = "s=%s; echo \"<${s##%s}>\"" % (sq(s0), P)
+        elif cons == "${v%%p}":
+            body = "s=%s; echo \"<${s%%%%%s}>\"" % (sq(s0), P)
+        else:
+            body = "s=%s; echo \"<${s/%s/%%}>\"" % (sq(s0), P)
+        b, o = lib.run_both(pre + body, mode="file")
+        if d:
+            shutil.rmtree(d, ignore_errors=True)
+        w = " ".join("%s:%s" % (k, esc(t)) for k, t in case["pieces"])
+        m = lib.run_drv(["C08 P %d %d %s -- %s" % (int(case.get("extglob", 0)), int(case.get("nocasematch", 0)), w, esc(s0))])
+        print("script:\n" + pre + body)
+        print("brush:", b["out"].strip(), b["err"].strip()[:200])
+        print("bash: ", o["out"].strip())
+        print("model impl / spec / joined text:", m[0])
+        return 1 if b["out"] != o["out"] else 0
     if "pattern" in case and "subject" in case:
         ext, nc = int(case.get("extglob", case.get("ext", 0))), int(case.get("nocasematch", case.get("nocase", 0)))
         p, s = case["pattern"], case["subject"]
